@@ -327,6 +327,48 @@ Section ExecInv.
 End ExecInv.
 
 (* the macro arm, taken apart once: the variable's text is lexed with the song's lexer fields and executed *)
+Definition value_text (name : list ch) (args : option (list (option marg))) (s : song) : res (list ch * song) :=
+  match vars_get name (s_vars s) with
+  | Some (VStr body _) => Ok (body, s)
+  | Some _ => Unsupported U_VAR
+  | None =>
+      match args with
+      | None => Ok ([], add_log s (zs "[WARN](" ++ show_int (s_lineno s) ++ zs ") Undefined: " ++ name))
+      | Some _ => Ok ([], s)
+      end
+  end.
+Definition value_body (args : option (list (option marg))) (body : list ch) : list ch :=
+  match args with Some a => subst_args 1 a body | None => body end.
+Definition value_run (ec : list tok -> res song -> res song) (args : option (list (option marg))) (lineno : Z)
+  (ts : list ch * song) : res song :=
+  do lx <- lex (ls_of_song (snd ts)) (value_body args (fst ts)) lineno;
+  ec (fst lx) (Ok (song_with_ls (snd ts) (snd lx))).
+Lemma step_value_eq ec name args lineno s :
+  step_song ec (TValue name args lineno) s = (do ts <- value_text name args s; value_run ec args lineno ts).
+Proof.
+  cbn [step_song]. fold (value_text name args s).
+  destruct (value_text name args s) as [[body s1]| | |]; cbn [bind]; try reflexivity.
+  unfold value_run, value_body. cbn [fst snd].
+  match goal with |- bind ?x _ = _ => destruct x as [[toks ls']| | |] end; reflexivity.
+Qed.
+
+Lemma bind_ok {A B} (r : res A) (f : A -> res B) b : bind r f = Ok b -> exists a, r = Ok a /\ f a = Ok b.
+Proof. destruct r; cbn [bind]; try discriminate. intros H. eexists; split; [reflexivity|exact H]. Qed.
+
+(* (stated so that the kernel unfolds value_run, never `bind (lex ...)`, when it checks the proof) *)
+Lemma value_run_ok ec args lineno ts s' : value_run ec args lineno ts = Ok s' ->
+  exists lx, lex (ls_of_song (snd ts)) (value_body args (fst ts)) lineno = Ok lx
+             /\ ec (fst lx) (Ok (song_with_ls (snd ts) (snd lx))) = Ok s'.
+Proof. exact (bind_ok _ _ _). Qed.
+
+Lemma value_text_song name args s body s1 :
+  value_text name args s = Ok (body, s1) -> s1 = s \/ exists m, s1 = add_log s m.
+Proof.
+  unfold value_text. destruct (vars_get name (s_vars s)) as [[b l|v|]|]; try discriminate.
+  - intros E; injection E as _ <-. left; reflexivity.
+  - destruct args; intros E; injection E as _ <-; [left; reflexivity|right; eexists; reflexivity].
+Qed.
+
 Lemma step_value_parts ec name args lineno s s' :
   step_song ec (TValue name args lineno) s = Ok s' ->
   exists s1 text toks ls',
@@ -334,32 +376,28 @@ Lemma step_value_parts ec name args lineno s s' :
     lex (ls_of_song s1) text lineno = Ok (toks, ls') /\
     ec toks (Ok (song_with_ls s1 ls')) = Ok s'.
 Proof.
-  cbn [step_song]. intros E.
-  match type of E with bind ?x _ = _ => destruct x as [[body s1]| | |] eqn:T end; cbn [bind] in E; try discriminate.
-  assert (Hs1 : s1 = s \/ exists m, s1 = add_log s m).
-  { destruct (vars_get name (s_vars s)) as [[b l|v|]|]; try discriminate.
-    - injection T as _ <-. left; reflexivity.
-    - destruct args; injection T as _ <-; [left; reflexivity|right; eexists; reflexivity]. }
-  match type of E with bind (lex ?a ?b ?c) _ = _ => destruct (lex a b c) as [[toks ls']| | |] eqn:L end;
-    cbn [bind] in E; try discriminate.
-  eexists s1, _, toks, ls'. split; [exact Hs1|]. split; [exact L|exact E].
+  rewrite step_value_eq. intros E.
+  apply bind_ok in E. destruct E as ([body s1] & T & E). apply value_text_song in T.
+  apply value_run_ok in E. destruct E as ([toks ls'] & L & E).
+  exists s1, (value_body args body), toks, ls'. split; [exact T|]. split; [exact L|exact E].
 Qed.
 
 Lemma step_song_events_inv ec : ec_keeps events_inv ec ->
   forall t s s', events_inv s -> step_song ec t s = Ok s' -> events_inv s'.
 Proof.
-  intros Hec t s s' H. destruct t; cbn [step_song].
-  Time all: try (intros E; injection E as <-;
+  intros Hec t s s' H. destruct t; cbn [step_song];
+  try (intros E; injection E as <-;
        first [ exact H
-             | apply inv_upd_cur; [intros t0 Ht0; exact Ht0|exact H] ]).
-  all: match goal with |- ?G => idtac "GOAL" G end.
+             | apply inv_upd_cur; [intros t0 Ht0; exact Ht0|exact H]
+             | apply exec_harmony_end_inv, H
+             | apply exec_voice_inv, H
+             | apply inv_track_sync, H
+             | apply exec_time_signature_inv, H
+             | apply tempo_change_inv, H ]).
   - (* TNote *) unfold exec_note. apply emit_note_inv; [exact H|apply simple_note].
   - (* TNoteN *) unfold exec_note_n. apply emit_note_inv; [exact H|apply simple_note].
-  - (* TOctaveOnce *)
-    apply (inv_upd_cur s (fun t => tr_set_octave t (value_range 0 (tr_octave t + v) 10))); [intros t0 Ht0; exact Ht0|exact H].
   - (* TVelocity *) destruct (ino >? 0); [discriminate|]. intros E; injection E as <-.
     apply inv_upd_cur; [intros t0 Ht0; exact Ht0|exact H].
-  - (* THarmonyEnd *) apply exec_harmony_end_inv, H.
   - (* TDiv *)
     match goal with |- context [ec ?X (Ok ?x)] => destruct (ec X (Ok x)) as [s2| | |] eqn:E2 end;
       cbn [bind]; try discriminate. intros E; injection E as <-.
@@ -369,8 +407,6 @@ Proof.
     destruct (ec children (Ok s)) as [s2| | |] eqn:E2; cbn [bind]; try discriminate. intros E; injection E as <-.
     apply Hec in E2; [|exact H]. apply inv_upd_cur; [intros t0 Ht0; exact Ht0|exact E2].
   - (* TTrack *) destruct (_ || _); [discriminate|]. intros E; injection E as <-. apply inv_change_cur_track, H.
-  - (* TVoice *) apply exec_voice_inv, H.
-  - (* TTrackSync *) apply inv_track_sync, H.
   - (* TTime *)
     pose proof (exec_get_time_inv s args (zs "TIME") H) as HG.
     destruct (exec_get_time s args (zs "TIME")) as [v s1]. cbn [snd] in HG.
@@ -379,9 +415,6 @@ Proof.
     pose proof (exec_get_time_inv s args (zs "PlayFrom") H) as HG.
     destruct (exec_get_time s args (zs "PlayFrom")) as [v s1]. cbn [snd] in HG.
     intros E; injection E as <-. exact HG.
-  - (* TTimeSignature *) apply exec_time_signature_inv, H.
-  - (* TTempo *) apply tempo_change_inv, H.
-  - (* TTieMode *) apply inv_upd_cur; [intros t0 Ht0; exact Ht0|exact H].
   - (* TValue *)
     intros E. apply step_value_parts in E. destruct E as (s1 & text & toks & ls' & Hs1 & _ & E).
     apply Hec in E; [exact E|]. apply song_with_ls_inv.
@@ -391,3 +424,372 @@ Qed.
 Theorem exec_f_events_inv steps d toks s s' :
   events_inv s -> exec_f d steps toks (Ok s) = Ok s' -> events_inv s'.
 Proof. exact (exec_f_keeps events_inv step_song_events_inv steps d toks s s'). Qed.
+
+(* ------------------------------------------------------------------------------------------------ *)
+(* 3. dimensions: the time base stays in 48..32767 (lexer), the track count in 1..1000 (runner)      *)
+
+Definition TB (ls : lexstate) : Prop := 48 <= lx_timebase ls <= 32767.
+
+Lemma tb_add_log ls m : TB ls -> TB (lx_add_log ls m).
+Proof. unfold TB. destruct (lx_add_log_other ls m) as [-> _]. exact (fun H => H). Qed.
+Lemma tb_lex_error ls s ln m : TB ls -> TB (lex_error ls s ln m).
+Proof. unfold TB. destruct (lex_error_other ls s ln m) as [-> _]. exact (fun H => H). Qed.
+Lemma tb_read_error_cmd ls s ln c : TB ls -> TB (read_error_cmd ls s ln c).
+Proof. apply tb_add_log. Qed.
+(* read_timebase: max(48, v) then min(32767, .) *)
+Lemma tb_clamp t0 a b c :
+  TB (mkLex (if (if t0 <=? 48 then 48 else t0) >? 32767 then 32767 else (if t0 <=? 48 then 48 else t0)) a b c).
+Proof. unfold TB. cbn [lx_timebase]. destruct (t0 <=? 48) eqn:E1; destruct (_ >? 32767) eqn:E2; lia. Qed.
+
+Lemma read_args_tokens_tb ls s ln vs s' ln' ls' :
+  read_args_tokens ls s ln = Ok (vs, s', ln', ls') -> TB ls -> TB ls'.
+Proof.
+  unfold read_args_tokens. intros H I. repeat brk H;
+    injection H as <- <- <- <-; try exact I; apply tb_add_log, I.
+Qed.
+Lemma read_macro_args_tb ls s ln vs s' ln' ls' :
+  read_macro_args ls s ln = Ok (vs, s', ln', ls') -> TB ls -> TB ls'.
+Proof.
+  unfold read_macro_args. intros H I. repeat brk H;
+    injection H as <- <- <- <-; try exact I; apply tb_add_log, I.
+Qed.
+Lemma check_variables_tb ls cmd s ln ot s' ln' ls' :
+  check_variables ls cmd s ln = Ok (ot, s', ln', ls') -> TB ls -> TB ls'.
+Proof.
+  unfold check_variables. intros H I. repeat brk H;
+    injection H as <- <- <- <-; try exact I;
+    try (apply tb_read_error_cmd, I); try (eapply read_macro_args_tb; eassumption).
+Qed.
+
+Section LoopTB.
+Variable sublex : lexstate -> list Z -> Z -> res lex_out.
+Hypothesis sub_tb : forall ls s ln toks ls', sublex ls s ln = Ok (toks, ls') -> TB ls -> TB ls'.
+
+Lemma LOOPG_tb : forall n ls s ln h acc toks ls',
+  LOOPG sublex n ls s ln h acc = Ok (toks, ls') -> TB ls -> TB ls'.
+Proof.
+  induction n as [|n IH]; intros ls s ln h acc toks ls' H I; [discriminate H|].
+  cbn [LOOPG] in H.
+  repeat brk H;
+  lazymatch type of H with
+  | Ok _ = Ok _ => injection H as <- <-; exact I
+  | _ => eapply IH; [exact H|]
+  end;
+  try exact I;
+  try (apply tb_lex_error, I); try (apply tb_add_log, I);
+  try (eapply check_variables_tb; eassumption);
+  try (eapply read_args_tokens_tb; eassumption);
+  try (eapply sub_tb; eassumption);
+  try (apply tb_clamp).
+Qed.
+End LoopTB.
+
+Lemma lex_f_tb : forall f ls src ln toks ls', lex_f f ls src ln = Ok (toks, ls') -> TB ls -> TB ls'.
+Proof.
+  induction f as [|f IH]; intros ls src ln toks ls' H I; [discriminate H|].
+  rewrite lex_f_unfold in H. unfold LOOP in H. eapply LOOPG_tb; [exact IH|exact H|exact I].
+Qed.
+Theorem lex_tb ls src ln toks ls' : lex ls src ln = Ok (toks, ls') -> TB ls -> TB ls'.
+Proof. unfold lex. apply lex_f_tb. Qed.
+
+(* ---- the runner ---- *)
+Definition dims_inv (s : song) : Prop :=
+  (1 <= length (s_tracks s) <= 1000)%nat /\ 48 <= s_timebase s <= 32767.
+(* what dims_inv looks at *)
+Definition dsig (s : song) : nat * Z := (length (s_tracks s), s_timebase s).
+
+Lemma dims_of_dsig s s' : dsig s' = dsig s -> dims_inv s -> dims_inv s'.
+Proof. unfold dsig, dims_inv. intros E. injection E as -> ->. exact (fun H => H). Qed.
+
+Ltac dsig_tac :=
+  unfold dsig;
+  cbn [s_tracks s_timebase upd_cur track_sync s_set_tracks s_set_cur s_set_key_flag s_set_key_shift
+       s_set_use_key_shift s_set_v_add s_set_q_add s_set_harmony_flag s_set_harmony_time s_set_harmony_events
+       s_set_octave_once s_set_break_flag s_set_tempo s_set_timesig_frac s_set_timesig_deno s_set_measure_shift
+       s_set_play_from s_set_lineno s_set_logs s_set_vars s_set_rhythm s_set_harmony s_set_time s_set_adds];
+  rewrite ?upd_nth_length, ?map_length; reflexivity.
+
+Lemma dsig_upd_cur s f : dsig (upd_cur s f) = dsig s.
+Proof. dsig_tac. Qed.
+Lemma dsig_add_log s m : dsig (add_log s m) = dsig s.
+Proof. unfold add_log. destruct (_ <=? _); reflexivity. Qed.
+Lemma dsig_runtime_error s m : dsig (runtime_error s m) = dsig s.
+Proof. apply dsig_add_log. Qed.
+
+Lemma dsig_emit_note s ev nl lettered slur s' : emit_note s ev nl lettered slur = Ok s' -> dsig s' = dsig s.
+Proof.
+  unfold emit_note.
+  repeat match goal with |- context [if ?b then _ else _] => destruct b end;
+    intros E; injection E as <-; dsig_tac.
+Qed.
+
+Lemma dsig_exec_voice s args : dsig (exec_voice s args) = dsig s.
+Proof. unfold exec_voice. destruct args as [|a [|b l]]; apply dsig_upd_cur. Qed.
+Lemma dsig_harmony_end s len q vel : dsig (exec_harmony_end s len q vel) = dsig s.
+Proof. unfold exec_harmony_end. destruct (s_harmony_flag s); [dsig_tac|reflexivity]. Qed.
+Lemma dsig_tempo_change s v : dsig (tempo_change s v) = dsig s.
+Proof. unfold tempo_change. dsig_tac. Qed.
+Lemma dsig_time_signature s args : dsig (exec_time_signature s args) = dsig s.
+Proof.
+  unfold exec_time_signature. destruct args as [|a [|b l]]; try apply dsig_runtime_error.
+  rewrite dsig_upd_cur.
+  match goal with |- context [if ?c then s else _] => destruct c end; [reflexivity|].
+  transitivity (dsig (runtime_error s (zs "[TimeSignature] value must be 2/4/8/16,n"))); [reflexivity|apply dsig_runtime_error].
+Qed.
+Lemma dsig_get_time s args cmd : dsig (snd (exec_get_time s args cmd)) = dsig s.
+Proof.
+  unfold exec_get_time. destruct args as [|a [|b [|c l]]]; cbn [snd]; try reflexivity; apply dsig_runtime_error.
+Qed.
+
+Lemma add_tracks_length n : forall tb l, length (add_tracks n tb l) = (length l + n)%nat.
+Proof.
+  induction n as [|n IH]; intros tb l; cbn [add_tracks]; [lia|].
+  rewrite IH, app_length. cbn [length]. lia.
+Qed.
+Lemma dsig_settle s : dsig (settle_octave_once s) = dsig s.
+Proof. unfold settle_octave_once. destruct (_ =? 0); [reflexivity|dsig_tac]. Qed.
+(* TR(no), 0 <= no <= 999: tracks 0..no exist afterwards, none beyond what existed or was asked for *)
+Lemma dims_change_cur_track s no : (no <= 999)%nat -> dims_inv s -> dims_inv (change_cur_track s no).
+Proof.
+  intros Hn H. apply (dims_of_dsig s _ (dsig_settle s)) in H. destruct H as [H1 H2].
+  unfold change_cur_track, dims_inv. cbn [s_tracks s_timebase s_set_cur s_set_tracks].
+  rewrite add_tracks_length. split; [lia|exact H2].
+Qed.
+
+Lemma dims_song_with_ls s ls : TB ls -> dims_inv s -> dims_inv (song_with_ls s ls).
+Proof. intros Ht [H1 _]. split; [exact H1|exact Ht]. Qed.
+Lemma tb_ls_of_song s : dims_inv s -> TB (ls_of_song s).
+Proof. intros [_ H]. exact H. Qed.
+
+Lemma step_song_dims ec : ec_keeps dims_inv ec ->
+  forall t s s', dims_inv s -> step_song ec t s = Ok s' -> dims_inv s'.
+Proof.
+  intros Hec t s s' H. destruct t; cbn [step_song];
+  try (intros E; injection E as <-; apply (dims_of_dsig s); [|exact H];
+       first [ reflexivity | dsig_tac | apply dsig_harmony_end | apply dsig_exec_voice
+             | apply dsig_time_signature | apply dsig_tempo_change ]).
+  - (* TNote *) unfold exec_note. intros E. apply dsig_emit_note in E. apply (dims_of_dsig s _ E H).
+  - (* TRest *) intros E; injection E as <-. apply (dims_of_dsig s _ (dsig_upd_cur s _) H).
+  - (* TVelocity *) destruct (ino >? 0); [discriminate|]. intros E; injection E as <-.
+    apply (dims_of_dsig s _ (dsig_upd_cur s _) H).
+  - (* TDiv *)
+    match goal with |- context [ec ?X (Ok ?x)] => destruct (ec X (Ok x)) as [s2| | |] eqn:E2 end;
+      cbn [bind]; try discriminate. intros E; injection E as <-.
+    apply Hec in E2; [|apply (dims_of_dsig s _ (dsig_upd_cur s _) H)].
+    apply (dims_of_dsig s2 _ (dsig_upd_cur s2 _) E2).
+  - (* TSub *)
+    destruct (ec children (Ok s)) as [s2| | |] eqn:E2; cbn [bind]; try discriminate. intros E; injection E as <-.
+    apply Hec in E2; [|exact H]. apply (dims_of_dsig s2 _ (dsig_upd_cur s2 _) E2).
+  - (* TTrack *) destruct (_ || _) eqn:Ev; [discriminate|]. intros E; injection E as <-.
+    apply dims_change_cur_track; [lia|exact H].
+  - (* TTime *)
+    pose proof (dsig_get_time s args (zs "TIME")) as HG.
+    destruct (exec_get_time s args (zs "TIME")) as [v s1]. cbn [snd] in HG.
+    intros E; injection E as <-. apply (dims_of_dsig s); [|exact H]. rewrite dsig_upd_cur. exact HG.
+  - (* TPlayFrom *)
+    pose proof (dsig_get_time s args (zs "PlayFrom")) as HG.
+    destruct (exec_get_time s args (zs "PlayFrom")) as [v s1]. cbn [snd] in HG.
+    intros E; injection E as <-. apply (dims_of_dsig s); [|exact H]. exact HG.
+  - (* TValue: the text is lexed with the song's time base; the lexer keeps it in range *)
+    intros E. apply step_value_parts in E. destruct E as (s1 & text & toks & ls' & Hs1 & L & E).
+    assert (H1 : dims_inv s1).
+    { destruct Hs1 as [->|[m ->]]; [exact H|apply (dims_of_dsig s _ (dsig_add_log s m) H)]. }
+    apply Hec in E; [exact E|]. apply dims_song_with_ls; [|exact H1].
+    apply (lex_tb _ _ _ _ _ L), tb_ls_of_song, H1.
+Qed.
+
+Theorem exec_f_dims steps d toks s s' :
+  dims_inv s -> exec_f d steps toks (Ok s) = Ok s' -> dims_inv s'.
+Proof. exact (exec_f_keeps dims_inv step_song_dims steps d toks s s'). Qed.
+
+(* ------------------------------------------------------------------------------------------------ *)
+(* 4. from the final song to the writer: flush of ties, play_from, split_note_off, events_sort        *)
+
+Lemma pf_step_ok tp a e : eok e -> Forall eok (pf_head a) -> Forall eok (pf_rest a) ->
+  Forall eok (pf_head (pf_step tp a e)) /\ Forall eok (pf_rest (pf_step tp a e)).
+Proof.
+  intros He Hh Hr.
+  assert (Hs : forall l t, Forall eok l -> Forall eok (l ++ [set_time e t])).
+  { intros l t Hl. apply Forall_app. split; [exact Hl|]. constructor; [apply eok_set_time, He|constructor]. }
+  unfold pf_step. destruct (e_type e);
+    repeat match goal with |- context [if ?b then _ else _] => destruct b end;
+    cbn [pf_head pf_rest]; split; auto.
+Qed.
+
+Lemma pf_fold_ok tp evs : forall a, Forall eok evs -> Forall eok (pf_head a) -> Forall eok (pf_rest a) ->
+  Forall eok (pf_head (fold_left (pf_step tp) evs a)) /\ Forall eok (pf_rest (fold_left (pf_step tp) evs a)).
+Proof.
+  induction evs as [|e r IH]; intros a He Hh Hr; cbn [fold_left]; [split; assumption|].
+  inversion He as [|x y He1 He2]; subst.
+  destruct (pf_step_ok tp a e He1 Hh Hr) as [A B]. apply IH; assumption.
+Qed.
+
+Lemma restore_ccs_ok ccs : forall no chs, Forall eok (restore_ccs no chs ccs).
+Proof.
+  induction ccs as [|v r IH]; intros no chs; cbn [restore_ccs]; [constructor|].
+  apply Forall_app. split; [|apply IH].
+  destruct (v <? 0); [constructor|]. constructor; [apply simple_eok, simple_cc|constructor].
+Qed.
+
+Theorem play_from_ok tp evs : Forall eok evs -> Forall eok (play_from tp evs).
+Proof.
+  intros H. unfold play_from.
+  match goal with |- context [fold_left ?f evs ?a0] =>
+    destruct (pf_fold_ok tp evs a0 H) as [A B]; [constructor|constructor|] end.
+  apply Forall_app. split; [exact A|]. apply Forall_app. split; [apply restore_ccs_ok|].
+  apply Forall_app. split; [|exact B].
+  destruct (_ >=? 0); [|constructor]. constructor; [apply simple_eok, simple_voice|constructor].
+Qed.
+
+Theorem split_note_off_ok evs : Forall eok evs -> Forall eok (split_note_off evs).
+Proof.
+  induction 1 as [|e r He Hr IH]; cbn [split_note_off]; [constructor|].
+  destruct (e_type e) eqn:Ty; try (constructor; [exact He|exact IH]).
+  constructor; [exact He|]. constructor; [reflexivity|exact IH].
+Qed.
+
+Theorem events_sort_ok evs : Forall eok evs -> Forall eok (events_sort evs).
+Proof. intros H. eapply Permutation_Forall; [apply Permutation_sym, events_sort_perm|exact H]. Qed.
+
+Theorem normalize_and_sort_ok evs : Forall eok evs -> Forall eok (normalize_and_sort evs).
+Proof. intros H. apply events_sort_ok, split_note_off_ok, H. Qed.
+
+Lemma Forall_eok_forallb l : Forall eok l -> forallb event_ok l = true.
+Proof. intros H. apply forallb_forall. rewrite Forall_forall in H. exact H. Qed.
+
+(* every list handed to the writer *)
+Theorem tracks_for_writer_ok s : events_inv s -> Forall (Forall eok) (tracks_for_writer s).
+Proof.
+  intros [H _]. unfold tracks_for_writer. apply Forall_forall. intros evs Hin.
+  apply in_map_iff in Hin. destruct Hin as (t & <- & Hin).
+  rewrite Forall_forall in H. pose proof (check_tie_notes_events_ok (s_timebase s) t (H t Hin)) as Ht.
+  destruct (s_play_from s <? 0); [exact Ht|]. apply play_from_ok, events_sort_ok, Ht.
+Qed.
+
+Lemma tracks_for_writer_length s : length (tracks_for_writer s) = length (s_tracks s).
+Proof. unfold tracks_for_writer. apply map_length. Qed.
+
+(* ------------------------------------------------------------------------------------------------ *)
+(* 5. the whole pipeline                                                                              *)
+
+Theorem run_source_inv src s : run_source src = Ok s -> events_inv s /\ dims_inv s.
+Proof.
+  unfold run_source. intros E. apply bind_ok in E. destruct E as ([toks ls] & L & E).
+  assert (T : TB ls). { apply (lex_tb _ _ _ _ _ L). unfold TB. cbn [lx_timebase]. lia. }
+  split.
+  - apply (exec_f_events_inv _ _ _ _ _ (song_after_lex_inv ls) E).
+  - apply (exec_f_dims _ _ _ _ _) in E; [exact E|].
+    apply dims_song_with_ls; [exact T|]. split; [cbn; lia|cbn; lia].
+Qed.
+Theorem run_source_wf src s : run_source src = Ok s -> events_wf s.
+Proof. intros E. apply events_inv_wf, (run_source_inv src s E). Qed.
+
+Lemma ok_inj {A} (a b : A) : @Ok A a = Ok b -> a = b.
+Proof. intros H. injection H as H. exact H. Qed.
+
+(* the writer's loops, read back as the list of bodies *)
+Lemma write_tracks_bodies tracks : forall out, write_tracks tracks = Ok out ->
+  exists bodies, bodies_of tracks = Ok bodies /\ out = flat_map chunk bodies.
+Proof.
+  induction tracks as [|t r IH]; intros out H; cbn [write_tracks] in H.
+  - injection H as <-. exists []. split; reflexivity.
+  - apply bind_ok in H. destruct H as (b & G & H). apply bind_ok in H. destruct H as (rest & W & H).
+    apply ok_inj in H. subst out. destruct (IH rest W) as (bs & B & ->).
+    exists (b :: bs). split; [cbn [bodies_of]; rewrite G, B; reflexivity|].
+    cbn [flat_map]. unfold chunk. rewrite <- !app_assoc. reflexivity.
+Qed.
+
+Lemma bodies_nth tracks : forall bodies i t b, bodies_of tracks = Ok bodies ->
+  nth_error tracks i = Some t -> nth_error bodies i = Some b -> generate_track t = Ok b.
+Proof.
+  induction tracks as [|t0 r IH]; intros bodies i t b H Ht Hb; [destruct i; discriminate|].
+  cbn [bodies_of] in H. apply bind_ok in H. destruct H as (b0 & G & H).
+  apply bind_ok in H. destruct H as (bs & B & H). injection H as <-.
+  destruct i as [|i]; cbn [nth_error] in Ht, Hb.
+  - injection Ht as <-. injection Hb as <-. exact G.
+  - exact (IH bs i t b B Ht Hb).
+Qed.
+
+Lemma body_le_chunks b : forall bodies, In b bodies -> (length b <= length (flat_map chunk bodies))%nat.
+Proof.
+  induction bodies as [|x r IH]; intros Hin; [destruct Hin|].
+  cbn [flat_map]. rewrite app_length. destruct Hin as [->|Hin].
+  - unfold chunk. rewrite !app_length. lia.
+  - specialize (IH Hin). lia.
+Qed.
+
+Definition file_header (s : song) : header := mkHeader 1 (zlen (s_tracks s)) (s_timebase s).
+
+(* Every source for which the model returns a value: the bytes are a container of one chunk per track of the
+   final song, and every chunk whose delta times fit the SMF range decodes to the wire form of that track's
+   normalized, sorted event list.  The one hypothesis: the file is shorter than 2^32 bytes. *)
+Theorem compile_pipeline src bytes log :
+  compile src = Ok (bytes, log) -> zlen bytes < 2 ^ 32 ->
+  exists s bodies,
+    run_source src = Ok s /\
+    events_wf s /\ (1 <= length (s_tracks s) <= 1000)%nat /\ 48 <= s_timebase s <= 32767 /\
+    parse_file bytes = Some (file_header s, bodies) /\
+    container_ok bytes = true /\
+    length bodies = length (s_tracks s) /\
+    forall i evs body,
+      nth_error (tracks_for_writer s) i = Some evs -> nth_error bodies i = Some body ->
+      deltas_ok (wire 0 (normalize_and_sort evs)) = true ->
+      decode_track body = Some (wire 0 (normalize_and_sort evs) ++ [EOTmsg]).
+Proof.
+  unfold compile. intros E Hsz. apply bind_ok in E. destruct E as (s & R & E).
+  apply bind_ok in E. destruct E as (bs & G & E). injection E as -> _.
+  destruct (run_source_inv src s R) as [Hev [Hn Htb]].
+  unfold generate, generate_sorted in G. apply bind_ok in G. destruct G as (out & W & G).
+  destruct (write_tracks_bodies _ _ W) as (bodies & B & ->).
+  assert (Hlen : length bodies = length (s_tracks s)).
+  { rewrite (bodies_length _ _ B), map_length. apply tracks_for_writer_length. }
+  assert (Hd : dims_ok (s_timebase s) bodies).
+  { split; [lia|]. split; [unfold zlen; lia|].
+    apply Forall_forall. intros b Hin. pose proof (body_le_chunks b bodies Hin) as Hb.
+    apply ok_inj in G. rewrite <- G in Hsz. unfold zlen in *. rewrite !app_length in Hsz. lia. }
+  destruct (generate_container (s_timebase s) _ bodies B Hd) as (bs' & G' & P & C).
+  unfold generate_sorted in G'. rewrite W in G'. cbn [bind] in G'. rewrite G in G'. injection G' as <-.
+  exists s, bodies. split; [exact R|]. split; [apply events_inv_wf, Hev|]. split; [exact Hn|]. split; [exact Htb|].
+  split. { rewrite P. unfold file_header, zlen. rewrite map_length, tracks_for_writer_length. reflexivity. }
+  split; [exact C|]. split; [exact Hlen|].
+  intros i evs body Hi Hb Hdl.
+  assert (Hg : generate_track (normalize_and_sort evs) = Ok body).
+  { apply (bodies_nth _ bodies i _ _ B); [|exact Hb]. rewrite nth_error_map, Hi. reflexivity. }
+  pose proof (tracks_for_writer_ok s Hev) as Hall. rewrite Forall_forall in Hall.
+  assert (Hok : forallb event_ok (normalize_and_sort evs) = true).
+  { apply Forall_eok_forallb, normalize_and_sort_ok, Hall. eapply nth_error_In, Hi. }
+  destruct (generate_track_decodes _ Hok Hdl) as (bs2 & G2 & D). rewrite Hg in G2. injection G2 as <-. exact D.
+Qed.
+
+(* the two faces of compile_pipeline, as C02 and C01 state them *)
+Theorem compile_decodes src bytes log :
+  compile src = Ok (bytes, log) -> zlen bytes < 2 ^ 32 ->
+  exists s bodies,
+    run_source src = Ok s /\ events_wf s /\
+    parse_file bytes = Some (mkHeader 1 (zlen (s_tracks s)) (s_timebase s), bodies) /\
+    length bodies = length (s_tracks s) /\
+    forall i evs body,
+      nth_error (tracks_for_writer s) i = Some evs -> nth_error bodies i = Some body ->
+      deltas_ok (wire 0 (normalize_and_sort evs)) = true ->
+      decode_track body = Some (wire 0 (normalize_and_sort evs) ++ [EOTmsg]).
+Proof.
+  intros E Hsz. destruct (compile_pipeline src bytes log E Hsz) as (s & bodies & R & W & _ & _ & P & _ & L & D).
+  exists s, bodies. split; [exact R|]. split; [exact W|]. split; [exact P|]. split; [exact L|exact D].
+Qed.
+
+Theorem compile_container src bytes log :
+  compile src = Ok (bytes, log) -> zlen bytes < 2 ^ 32 ->
+  container_ok bytes = true /\
+  exists s bodies,
+    run_source src = Ok s /\
+    parse_file bytes = Some (mkHeader 1 (zlen (s_tracks s)) (s_timebase s), bodies) /\
+    length bodies = length (s_tracks s) /\
+    (1 <= length (s_tracks s) <= 1000)%nat /\ 48 <= s_timebase s <= 32767.
+Proof.
+  intros E Hsz. destruct (compile_pipeline src bytes log E Hsz) as (s & bodies & R & _ & N & T & P & C & L & _).
+  split; [exact C|]. exists s, bodies. split; [exact R|]. split; [exact P|]. split; [exact L|]. split; [exact N|exact T].
+Qed.
+
+Theorem dims_from_source src s :
+  run_source src = Ok s -> (1 <= length (s_tracks s) <= 1000)%nat /\ 48 <= s_timebase s <= 32767.
+Proof. intros R. exact (proj2 (run_source_inv src s R)). Qed.
